@@ -158,6 +158,12 @@ pub trait CartState {
   fn get_ram_override(&self, addr: u16) -> Option<u8> {
     None
   }
+
+  /// Raw controller registers: [rom, ram, ram_enabled, mode]
+  #[cfg(gb_dynarec_verif)]
+  fn verif_regs(&self) -> [usize; 4] {
+    [0, 0, 0, 0]
+  }
 }
 
 pub struct NullCartState {
@@ -232,6 +238,11 @@ impl CartState for MBC1CartState {
       Some(0xff)
     }
   }
+
+  #[cfg(gb_dynarec_verif)]
+  fn verif_regs(&self) -> [usize; 4] {
+    [self.rom_bank, self.ram_bank, self.ram_enabled as usize, self.select_ram as usize]
+  }
 }
 
 pub struct MBC3CartState {
@@ -277,5 +288,10 @@ impl CartState for MBC3CartState {
 
   fn get_ram_bank(&self) -> usize {
     self.ram_bank
+  }
+
+  #[cfg(gb_dynarec_verif)]
+  fn verif_regs(&self) -> [usize; 4] {
+    [self.rom_bank, self.ram_bank, self.ram_enabled as usize, 0]
   }
 }
